@@ -34,6 +34,12 @@ thread_local! {
     static LIVE: Cell<i64> = const { Cell::new(0) };
 }
 
+/// While set (the C-API properties switch it on), memory is POISONED when it is released and a `realloc` always moves
+/// the block: code that reads a block after giving it back (a borrowed entry cloned after its container's storage has
+/// been reallocated, say) then reads 0xDD bytes instead of the stale but intact data a plain allocator would leave
+/// there, and fails visibly (wrong value, invalid enum tag, absurd length) instead of passing by accident.
+pub static POISON: std::sync::atomic::AtomicBool = std::sync::atomic::AtomicBool::new(false);
+
 unsafe impl GlobalAlloc for Counting {
     unsafe fn alloc(&self, layout: Layout) -> *mut u8 {
         let p = System.alloc(layout);
@@ -44,6 +50,9 @@ unsafe impl GlobalAlloc for Counting {
     }
     unsafe fn dealloc(&self, ptr: *mut u8, layout: Layout) {
         let _ = LIVE.try_with(|c| c.set(c.get() - 1));
+        if POISON.load(std::sync::atomic::Ordering::Relaxed) {
+            std::ptr::write_bytes(ptr, 0xDD, layout.size());
+        }
         System.dealloc(ptr, layout)
     }
     unsafe fn alloc_zeroed(&self, layout: Layout) -> *mut u8 {
@@ -54,7 +63,18 @@ unsafe impl GlobalAlloc for Counting {
         p
     }
     unsafe fn realloc(&self, ptr: *mut u8, layout: Layout, new_size: usize) -> *mut u8 {
-        System.realloc(ptr, layout, new_size)
+        if !POISON.load(std::sync::atomic::Ordering::Relaxed) {
+            return System.realloc(ptr, layout, new_size);
+        }
+        // always move: new block, copy, poison and release the old one
+        let new_layout = Layout::from_size_align_unchecked(new_size, layout.align());
+        let q = System.alloc(new_layout);
+        if !q.is_null() {
+            std::ptr::copy_nonoverlapping(ptr, q, layout.size().min(new_size));
+            std::ptr::write_bytes(ptr, 0xDD, layout.size());
+            System.dealloc(ptr, layout);
+        }
+        q
     }
 }
 
@@ -307,8 +327,135 @@ fn parse_batch(input: &str) -> Option<(u64, u64)> {
     Some((it.next()?.parse().ok()?, it.next()?.parse().ok()?))
 }
 
+/// Borrowed entry pointers used while their container is alive and unmodified - as arguments of a call that then
+/// modifies that very container: `get_list_entry_at(l, i)` then `push_list_entry(l, entry)` / `insert_dict_entry(d, k,
+/// entry)` for every length 1..n (so that every capacity boundary of the storage is crossed), and the same through a
+/// dict.  What the container holds afterwards is read back through the C getters and compared with what was put in.
+fn exec_borrowed(n: usize, out: &mut CaseOut) {
+    use libhaystack::c_api::dict::*;
+    use libhaystack::c_api::list::*;
+    use libhaystack::c_api::str::*;
+    use libhaystack::c_api::value::*;
+    use libhaystack::c_api::ResultType;
+    use libhaystack::val::Value;
+    use std::ffi::{CStr, CString};
+    out.nontrivial = true;
+    out.stat("borrowed");
+    unsafe {
+        let text_of = |p: *const Value| -> Option<String> {
+            let c = haystack_value_get_str_value(p);
+            if c.is_null() {
+                return None;
+            }
+            let t = CStr::from_ptr(c).to_string_lossy().to_string();
+            haystack_string_destroy(c as *mut std::os::raw::c_char);
+            Some(t)
+        };
+        // ---- list: duplicate the FIRST entry at every length
+        let list = Box::into_raw(haystack_value_make_list());
+        let first = CString::new("entry number zero, long enough to live on the heap").unwrap();
+        let e0 = Box::into_raw(haystack_value_make_str(first.as_ptr()).unwrap());
+        if haystack_value_push_list_entry(list, e0) != ResultType::TRUE {
+            out.fail("harness", "push failed".into());
+        }
+        haystack_value_destroy(e0);
+        for round in 1..n {
+            let mut p: *const Value = std::ptr::null();
+            if haystack_value_get_list_entry_at(list, 0, &mut p) != ResultType::TRUE || p.is_null() {
+                out.fail("borrowed_entry", format!("round {round}: get_list_entry_at(list, 0) failed"));
+                break;
+            }
+            if haystack_value_push_list_entry(list, p) != ResultType::TRUE {
+                out.fail("borrowed_entry", format!("round {round}: push_list_entry(list, borrowed entry 0) failed"));
+                break;
+            }
+            let len = haystack_value_get_list_len(list);
+            let mut q: *const Value = std::ptr::null();
+            let got = if haystack_value_get_list_entry_at(list, len - 1, &mut q) == ResultType::TRUE { text_of(q) } else { None };
+            if len != round + 1 || got.as_deref() != Some(first.to_str().unwrap()) {
+                out.fail(
+                    "borrowed_entry",
+                    format!("after pushing a copy of entry 0 (borrowed with get_list_entry_at) onto a list of {round} entries the last entry reads {got:?}, length {len}"),
+                );
+                break;
+            }
+        }
+        haystack_value_destroy(list);
+        // ---- dict: re-insert the entry of key `k0` under fresh keys
+        let dict = Box::into_raw(haystack_value_make_dict());
+        let k0 = CString::new("k0").unwrap();
+        let v0 = Box::into_raw(haystack_value_make_str(first.as_ptr()).unwrap());
+        haystack_value_insert_dict_entry(dict, k0.as_ptr(), v0);
+        haystack_value_destroy(v0);
+        for round in 1..n {
+            let mut p: *const Value = std::ptr::null();
+            if haystack_value_get_dict_entry(dict, k0.as_ptr(), &mut p) != ResultType::TRUE || p.is_null() {
+                out.fail("borrowed_entry", format!("round {round}: get_dict_entry(dict, k0) failed"));
+                break;
+            }
+            let k = CString::new(format!("k{round}")).unwrap();
+            if haystack_value_insert_dict_entry(dict, k.as_ptr(), p) != ResultType::TRUE {
+                out.fail("borrowed_entry", format!("round {round}: insert_dict_entry(dict, k{round}, borrowed entry) failed"));
+                break;
+            }
+            let mut q: *const Value = std::ptr::null();
+            let got = if haystack_value_get_dict_entry(dict, k.as_ptr(), &mut q) == ResultType::TRUE { text_of(q) } else { None };
+            if got.as_deref() != Some(first.to_str().unwrap()) {
+                out.fail("borrowed_entry", format!("after inserting a copy of entry k0 under k{round} it reads {got:?}"));
+                break;
+            }
+        }
+        haystack_value_destroy(dict);
+    }
+}
+
+/// Failing calls whose error message echoes LONG caller text with multi-byte characters at every alignment (unknown
+/// unit, unknown zone, invalid filter, invalid Zinc, invalid JSON): the failure must be the sentinel, and the message
+/// must be retrievable - not an abort inside the C boundary.
+fn exec_longerr(out: &mut CaseOut) {
+    use libhaystack::c_api::err::last_error_message;
+    use libhaystack::c_api::str::haystack_string_destroy;
+    use std::ffi::CString;
+    out.nontrivial = true;
+    out.stat("longerr");
+    let fills = ["é", "€", "😀", "aé", "ab€"];
+    for pad in 0..6usize {
+        for fill in fills {
+            for total in [200usize, 250, 254, 255, 256, 257, 260, 300, 510, 512, 514, 1020, 1024, 1030, 4096, 70000] {
+                let mut t = "x".repeat(pad);
+                while t.len() < total {
+                    t.push_str(fill);
+                }
+                let c = CString::new(t.clone()).unwrap();
+                unsafe {
+                    let mut check = |name: &str, failed: bool| {
+                        let m = last_error_message();
+                        if failed && m.is_null() {
+                            out.fail("null_no_message", format!("{name} with {total} bytes of `{fill}` text failed without a retrievable message"));
+                        }
+                        if !m.is_null() {
+                            haystack_string_destroy(m as *mut std::os::raw::c_char);
+                        }
+                    };
+                    let f = libhaystack::c_api::value::haystack_value_make_number_with_unit(1.0, c.as_ptr()).map(drop).is_none();
+                    check("make_number_with_unit", f);
+                    let f = libhaystack::c_api::filter::haystack_filter_parse(c.as_ptr()).map(drop).is_none();
+                    check("filter_parse", f);
+                    let f = libhaystack::c_api::zinc::haystack_value_from_zinc_string(c.as_ptr()).map(drop).is_none();
+                    check("from_zinc_string", f);
+                    let f = libhaystack::c_api::json::haystack_value_from_json_string(c.as_ptr()).map(drop).is_none();
+                    check("from_json_string", f);
+                }
+            }
+        }
+    }
+}
+
 pub fn exec(label: &str, input: &str, out: &mut CaseOut) {
+    POISON.store(true, std::sync::atomic::Ordering::Relaxed);
     match label {
+        "borrowed" => exec_borrowed(input.parse().unwrap_or(70), out),
+        "longerr" => exec_longerr(out),
         "hist" | "tour" => {
             exec_hist(input, out, true);
         }
@@ -370,6 +517,8 @@ pub fn exec(label: &str, input: &str, out: &mut CaseOut) {
 
 pub fn generate(ctx: &mut Ctx) {
     ctx.case("nulltable", "-");
+    ctx.case("borrowed", "70");
+    ctx.case("longerr", "-");
     ctx.case("tour", &c17::show_history(&c17::tour()));
     // every (function, pointer parameter) with null
     for (f, ord, pos) in null_pairs() {
